@@ -117,7 +117,10 @@ META["C03"] = dict(
          "every byte string reads what recovery of the disk before the cycle reads), C03_pgc_interrupted_crash_recovers (the same for a "
          "primary GC cycle that starts with an EMPTY INDEX POOL: nothing acknowledged is lost) and "
          "C03_d11_pgc_dirty_index_pool_loses_durable_value (decide: without that premise a flushed value is lost = known finding D11 in "
-         "the model). Granularity: the model is cut at polls; the file-system steps between two polls are each atomic and covered by the "
+         "the model); C03_crash_after_gc_history (+ _against_map, _keeps_working_partial, CID variants): the flush-crash theorem for "
+         "histories that CONTAIN index GC and primary GC cycles and reopens anywhere (premises GcCountersOK and PgcFromClean = D11; the "
+         "continuation after recovery may contain index GC but, on the multihash primary, no primary GC = known finding D12). "
+         "Granularity: the model is cut at polls; the file-system steps between two polls are each atomic and covered by the "
          "crash engine. Partial with respect to the statement: "
          "crashes inside open and upgrade steps and between the polls of a GC cycle are "
          "covered by the crash engine (images at ~100 hook points recovered by the real code and by the model), not by theorems; known findings "
